@@ -91,8 +91,7 @@ def ill_shaped_uses(cls):
 def check_shapes(ctx, rule, cls, min_fields=1):
     shapes, uses = ill_shaped_uses(cls)
     if len(shapes) < min_fields:
-        from .report import AnalysisError
-        raise AnalysisError(f"{rule}: {len(shapes)} tuple-shaped container fields recognised in {cls.name} (expected >= {min_fields})")
+        ctx.defer(f"{rule}: {len(shapes)} tuple-shaped container fields recognised in {cls.name} (expected >= {min_fields})")
     for f, node, field, name, k, bad in uses:
         ctx.check(not bad, rule, f"{cls.name}.{f.name}: `{norm(node)[:60]}` on self.{field} ({k}-tuples)", f, node,
                   f"`{name}` is one component of the {k}-tuples held by self.{field} (it is compared with / packed as a component in this function): used as a whole element "
